@@ -16,17 +16,18 @@ import (
 
 // ---- C16: the Static middleware over a real directory tree ----
 // The tree (created once per harness process under a fresh temp dir, removed at exit):
-//   <tmp>/secret.txt                     FILE1   (outside the served directory)
-//   <tmp>/pub2/x.txt                     FILE2   (sibling whose name extends the directory's)
-//   <tmp>/pub/a.txt                      FILE3
-//   <tmp>/pub/index.html                 FILE4
-//   <tmp>/pub/sub/b.txt                  FILE5
-//   <tmp>/pub/sub/index.html             FILE6
-//   <tmp>/pub/noindex/c.txt              FILE7
-//   <tmp>/pub/sp ace.txt                 FILE8
-//   <tmp>/pub/static/d.txt               FILE9   (a directory named like the prefix)
-//   <tmp>/pub/idxdir/index.html/         (a directory named like the index file)
-//   <tmp>/pub/alt/home.htm               FILE10
+//
+//	<tmp>/secret.txt                     FILE1   (outside the served directory)
+//	<tmp>/pub2/x.txt                     FILE2   (sibling whose name extends the directory's)
+//	<tmp>/pub/a.txt                      FILE3
+//	<tmp>/pub/index.html                 FILE4
+//	<tmp>/pub/sub/b.txt                  FILE5
+//	<tmp>/pub/sub/index.html             FILE6
+//	<tmp>/pub/noindex/c.txt              FILE7
+//	<tmp>/pub/sp ace.txt                 FILE8
+//	<tmp>/pub/static/d.txt               FILE9   (a directory named like the prefix)
+//	<tmp>/pub/idxdir/index.html/         (a directory named like the index file)
+//	<tmp>/pub/alt/home.htm               FILE10
 var c16once sync.Once
 var c16root string
 
